@@ -48,6 +48,9 @@ def do_check(a):
             continue
         mp = os.path.join(d, "meta.json")
         meta = json.load(open(mp)) if os.path.exists(mp) else {}
+        if meta.get("frozen"):
+            print(f"{os.path.relpath(d, ROOT):24s} frozen (see its note): {meta.get('detected_by')}", flush=True)
+            continue
         props = [meta.get("property") or os.path.basename(os.path.dirname(d))]
         for p in (a.props.split(",") if a.props else meta.get("also_check", [])):
             if p and p not in props:
